@@ -192,6 +192,9 @@ def record(env: Any, query: str) -> Optional[Dict[str, Any]]:
     try:
         if len(query) > 400:        # the specification's scanners recurse once per character
             raise Unrepresentable("long text")
+        if any(c.isdigit() and not c.isascii() for c in query):
+            # the host's \\d and int() also read the decimal digits of other scripts; Lexer.tla / Parser.tla know the ASCII digits only
+            raise Unrepresentable("non-ASCII decimal digit")
         toks = tokens_of(env, query)
         try:
             p = env.compile(query)
